@@ -34,20 +34,23 @@ type Opts struct {
 	NoAutoRead         bool   `json:"disable_auto_read,omitempty"`
 	TimeoutMs          int    `json:"timeout_ms,omitempty"`
 	H2MaxHeaderList    int    `json:"h2_max_header_list_size,omitempty"`
+	H2ReadIdleMs       int    `json:"h2_read_idle_timeout_ms,omitempty"` // health-check pings on an idle connection
 	H2LimitVia         string `json:"h2_limit_configured_via,omitempty"` // "" = SetHTTP2MaxHeaderListSize | settings-frame | settings-frame-with-others
 	Expect100          bool   `json:"expect_100_continue,omitempty"`     // the request carries Expect: 100-continue (POST with a body)
 }
 
 type Round struct {
-	Data  []byte   `json:"-"`
-	Lazy  string   `json:"generated_by,omitempty"` // big streams are materialised only while the case runs
-	Hex   string   `json:"data,omitempty"`         // filled for descriptions (capped)
-	Len   int      `json:"len"`
-	Segs  []int    `json:"segs,omitempty"`
-	End   string   `json:"end"`
-	Hold  int      `json:"hold_ms,omitempty"`
-	Pause int      `json:"pause_after_first_segment_ms,omitempty"` // the rest of the stream arrives later, on its own
-	Steps []H2Step `json:"h2_steps,omitempty"`
+	Data      []byte   `json:"-"`
+	Lazy      string   `json:"generated_by,omitempty"` // big streams are materialised only while the case runs
+	Hex       string   `json:"data,omitempty"`         // filled for descriptions (capped)
+	Len       int      `json:"len"`
+	Segs      []int    `json:"segs,omitempty"`
+	End       string   `json:"end"`
+	Hold      int      `json:"hold_ms,omitempty"`
+	Pause     int      `json:"pause_after_first_segment_ms,omitempty"` // the rest of the stream arrives later, on its own
+	Steps     []H2Step `json:"h2_steps,omitempty"`
+	PingAcks  int      `json:"h2_acks_per_ping,omitempty"`     // how often the peer acknowledges each PING (in one write)
+	PingOther bool     `json:"h2_ack_other_payload,omitempty"` // ... the last of them with another payload
 }
 
 // Structured: what the generator knows about a well-formed response (needed to state the
